@@ -302,6 +302,21 @@ def run(w: World, rep: Report):
                     isinstance(b.right.func.value, ast.Name) and b.right.func.value.id in fv and \
                     [getattr(a, 'value', None) for a in b.right.args] == [1, 'big'] and not b.right.keywords:
                 ok = True
+    # the same as a statement: `if <flag>: <sigvar> += <flag>.to_bytes(1, 'big')`
+    for n in ast.walk(sg.node):
+        if isinstance(n, ast.If) and isinstance(n.test, ast.Name) and n.test.id in fv and not n.orelse and len(n.body) == 1:
+            b = n.body[0]
+            val = None
+            if isinstance(b, ast.AugAssign) and isinstance(b.op, ast.Add) and isinstance(b.target, ast.Name):
+                val = b.value
+            elif isinstance(b, ast.Assign) and len(b.targets) == 1 and isinstance(b.targets[0], ast.Name) and \
+                    isinstance(b.value, ast.BinOp) and isinstance(b.value.op, ast.Add) and \
+                    isinstance(b.value.left, ast.Name) and b.value.left.id == b.targets[0].id:
+                val = b.value.right
+            if isinstance(val, ast.Call) and isinstance(val.func, ast.Attribute) and val.func.attr == 'to_bytes' and \
+                    isinstance(val.func.value, ast.Name) and val.func.value.id in fv and \
+                    [getattr(a, 'value', None) for a in val.args] == [1, 'big'] and not val.keywords:
+                ok = True
     rep.check('C02.R3', f'functions.{sg.name}|flag-byte-appended-iff-nonzero', ok, line=sg.node.lineno, file=REL,
               why='' if ok else 'OP_SIGN does not append exactly its flag byte when (and only when) it is non-zero')
     # CHECK_SIG strips exactly the trailing byte when 65 long
